@@ -276,6 +276,18 @@ func runWaitCase(cs *WaitCase) (*waitObs, []finding) {
 			nb = nb.WithExecFallbackFunc(func(any, error) (any, error) { return "rescued", nil })
 		}
 		node = nb
+	case "flow-later-node": // the waiting node is not the flow's start node: cs.Items - 1 pass-through nodes come first
+		wn := &waitNode{flyt.NewBaseNode(flyt.WithMaxRetries(cs.N), flyt.WithWait(wait)), w}
+		first := flyt.NewNode()
+		f := flyt.NewFlow(first)
+		var prev flyt.Node = first
+		for i := 2; i < cs.Items; i++ {
+			nx := flyt.NewNode()
+			f.Connect(prev, flyt.DefaultAction, nx)
+			prev = nx
+		}
+		f.Connect(prev, flyt.DefaultAction, wn)
+		node = f
 	case "flow-retry", "flow-retry-nested":
 		// the retry settings sit on a FLOW (its BaseNode: the way the API offers): the flow as a whole is attempted N
 		// times around an inner node (budget 1) that fails; between the end of one flow attempt and the start of the
@@ -571,6 +583,19 @@ func runC20(c *Cfg) {
 		}
 	}
 	// upper bounds ("no wait before the first attempt or after the last one"): w = 300 ms
+	// a waiting node behind one / two transitions of a flow: the lower bound, and the interruption with the context's error
+	for _, pos := range []int{2, 3} {
+		cases = append(cases, &WaitCase{Family: "lower-bound-node-behind-a-transition", Kind: "flow-later-node", WaitNs: int64(5 * time.Millisecond), N: 3, K: 3, Items: pos})
+		for _, in := range []bool{false, true} {
+			cases = append(cases, &WaitCase{Family: "interrupt-node-behind-a-transition", Kind: "flow-later-node", WaitNs: int64(time.Hour), N: 3, K: 4, Cancel: 1, InCB: in, Items: pos, CtxFar: in && pos == 3})
+		}
+		cases = append(cases, &WaitCase{Family: "interrupt-node-behind-a-transition", Kind: "flow-later-node", WaitNs: int64(time.Hour), N: 3, K: 4, Cancel: 1, InCB: true, DeadlineMs: 120, Items: pos})
+	}
+	// stop mode, concurrent, waits of several hundred milliseconds that are no multiple of any round number
+	for _, wn := range []time.Duration{410 * time.Millisecond, 620 * time.Millisecond} {
+		cases = append(cases, &WaitCase{Family: "lower-bound-batch-stop-long-wait", Kind: "batch", WaitNs: int64(wn), N: 2, K: 2, C: 2, Items: 3, Stop: true})
+	}
+	cases = append(cases, &WaitCase{Family: "lower-bound-batch-stop-long-wait", Kind: "batch", WaitNs: int64(333 * time.Millisecond), N: 2, K: 2, C: 3, Items: 3})
 	// retry settings on a flow (through its BaseNode): the wait between flow attempts, and its interruption
 	for _, kind := range []string{"flow-retry", "flow-retry-nested"} {
 		for _, wn := range []time.Duration{5 * time.Millisecond, 20 * time.Millisecond} {
